@@ -1,5 +1,6 @@
 import LiquidVerif.Lemmas.CondParse
 import LiquidVerif.Lemmas.Cond
+import LiquidVerif.Lemmas.CondDeep
 /-!
 # C12 — conditions follow Liquid truthiness and operator rules
 
@@ -561,5 +562,202 @@ example : parse ⟨true, true⟩
       rcases hx with rfl | rfl
       · exact operand_cmp _ [.atom 2] [.atom 3] _ _ .eq .eq rfl (primary_atom _ 2) (primary_atom _ 3)
       · exact operand_of_primary (primary_atom _ _))
+
+
+/-! ## Deepening round: equality on arbitrarily nested values; symmetry and reflexivity -/
+
+/-- `deepEq` really is *recursive Liquid equality*: on anything but two arrays or two hashes it is `_eq` itself … -/
+theorem deepEq_leaf (a b : Val)
+    (hl : ∀ xs ys, ¬ (a = .list xs ∧ b = .list ys)) (hd : ∀ xs ys, ¬ (a = .dict xs ∧ b = .dict ys)) :
+    deepEq a b = liquidEq a b := by
+  cases a <;> cases b <;>
+    simp_all [liquidEq, toLiquid, Val.isSentinel, Val.isBool, pyEq, deepEq, Val.pyNum?, Val.num?, emptyEq,
+      blankEq, boolQ_eq, Ext.eq, Bool.beq_comm]
+
+/-- … on two arrays it is "same length and items pairwise `deepEq`" … -/
+theorem deepEq_list (xs ys : List Val) :
+    deepEq (.list xs) (.list ys) = (decide (xs.length = ys.length) && (List.zipWith deepEq xs ys).all id) := by
+  simp only [deepEq]
+  induction xs generalizing ys with
+  | nil => cases ys <;> simp [deepEqL]
+  | cons x xs ih =>
+    cases ys with
+    | nil => simp [deepEqL]
+    | cons y ys =>
+      simp only [deepEqL, ih ys, List.length_cons, List.zipWith_cons_cons, List.all_cons, id]
+      by_cases h : xs.length = ys.length <;> simp [h, Bool.and_comm]
+
+/-- … and on two hashes "same keys and values pairwise `deepEq`" (hashes are key-sorted entry lists). -/
+theorem deepEq_dict (xs ys : List (String × Val)) :
+    deepEq (.dict xs) (.dict ys) =
+      (decide (xs.map (·.1) = ys.map (·.1)) && (List.zipWith (fun p q => deepEq p.2 q.2) xs ys).all id) := by
+  simp only [deepEq]
+  induction xs generalizing ys with
+  | nil => cases ys <;> simp [deepEqD]
+  | cons x xs ih =>
+    obtain ⟨k, x⟩ := x
+    cases ys with
+    | nil => simp [deepEqD]
+    | cons y ys =>
+      obtain ⟨k', y⟩ := y
+      simp only [deepEqD, ih ys, List.map_cons, List.zipWith_cons_cons, List.all_cons, id, List.cons.injEq]
+      by_cases h1 : k = k' <;> by_cases h2 : xs.map (·.1) = ys.map (·.1) <;> simp [h1, h2, Bool.and_comm]
+
+/-- **What `==` computes on nested values, any depth.**  `_eq` equals recursive Liquid equality whenever no
+    aligned pair of items (at any depth of arrays inside arrays / hashes) puts a boolean against a number.
+    Generalises `list_eq_itemwise_partial` to every depth and to hashes. -/
+theorem eq_nested_partial (a b : Val) (h : noClashItems a b = true) : liquidEq a b = deepEq a b := by
+  cases a <;> cases b <;>
+    simp_all [liquidEq, toLiquid, Val.isSentinel, Val.isBool, pyEq, deepEq, Val.pyNum?, Val.num?, emptyEq,
+      blankEq, boolQ_eq, Ext.eq, Bool.beq_comm, noClashItems]
+  · rename_i xs ys
+    exact pyEqL_eq_deepEqL xs ys (fun x _ y hy => pyEq_eq_deepEq x y hy) h
+  · rename_i xs ys
+    exact pyEqD_eq_deepEqD xs ys (fun kv _ y hy => pyEq_eq_deepEq kv.2 y hy) h
+
+/-- The deviation is one-sided, for **all** values: whatever is Liquid-equal is also equal for the code; the
+    code can only call *more* things equal (exactly the boolean/number clashes). -/
+theorem eq_nested_coarser (a b : Val) (h : deepEq a b = true) : liquidEq a b = true := by
+  by_cases hl : ∃ xs ys, a = .list xs ∧ b = .list ys
+  · obtain ⟨xs, ys, rfl, rfl⟩ := hl
+    have := deepEq_imp_pyEq _ _ h
+    simpa [liquidEq, toLiquid, Val.isSentinel, Val.isBool] using this
+  · by_cases hd : ∃ xs ys, a = .dict xs ∧ b = .dict ys
+    · obtain ⟨xs, ys, rfl, rfl⟩ := hd
+      have := deepEq_imp_pyEq _ _ h
+      simpa [liquidEq, toLiquid, Val.isSentinel, Val.isBool] using this
+    · rw [← deepEq_leaf a b (fun xs ys hh => hl ⟨xs, ys, hh⟩) (fun xs ys hh => hd ⟨xs, ys, hh⟩)]; exact h
+
+/-- The full statement (`==` is recursive Liquid equality) is false for the code at every depth ≥ 1:
+    `[[1]] == [[true]]` and `{"k": [1.0]} == {"k": [true]}` hold. -/
+theorem eq_nested_counterexample :
+    ¬ (liquidEq (.list [.list [.int 1]]) (.list [.list [.bool true]]) =
+        deepEq (.list [.list [.int 1]]) (.list [.list [.bool true]])) ∧
+    ¬ (liquidEq (.dict [("k", .list [.float (.fin ⟨1, 0⟩)])]) (.dict [("k", .list [.bool true])]) =
+        deepEq (.dict [("k", .list [.float (.fin ⟨1, 0⟩)])]) (.dict [("k", .list [.bool true])])) := by
+  constructor <;> decide
+
+/-- **`==` is symmetric for every pair of values** (both operand swaps of `_eq` and every reflected `__eq__`
+    included; so `!=`/`<>` are symmetric too). -/
+theorem eq_symm (a b : Val) : liquidEq a b = liquidEq b a := by
+  cases a <;> cases b <;>
+    simp [liquidEq, toLiquid, Val.isSentinel, Val.isBool, pyEq, Val.pyNum?, Val.num?, emptyEq, blankEq,
+      boolQ_eq, Ext.eq, Bool.beq_comm] <;>
+    first
+      | exact Ext.eq_symm _ _ | exact Q.eq_symm _ _ | exact rangeEq_symm _ _ _ _ | exact pyEqL_symm _ _
+      | exact pyEqD_symm _ _ | exact BEq.comm | exact eq_comm
+
+/-- **`x == x` holds for every value that contains no float NaN** … -/
+theorem eq_refl_partial (a : Val) (h : nanFree a = true) : liquidEq a a = true := by
+  have hp := pyEq_refl a h
+  cases a <;> simp_all [liquidEq, toLiquid, Val.isSentinel, Val.isBool, pyEq]
+
+/-- … and fails with one: `nan == nan` is false, and so is `[nan] == [nan]` for two distinct NaN objects
+    (CPython's identity shortcut makes it true for the *same* object; the model never shares objects). -/
+theorem eq_refl_counterexample :
+    liquidEq (.float .nan) (.float .nan) = false ∧ liquidEq (.list [.float .nan]) (.list [.float .nan]) = false := by
+  decide
+
+/-- `<` is irreflexive and asymmetric wherever it is defined: never `a < a`, never both `a < b` and `b < a`. -/
+theorem lt_irrefl_asymm (a b : Val) :
+    liquidLt a a ≠ .ok true ∧ (liquidLt a b = .ok true → liquidLt b a = .ok false) := by
+  have qirr : ∀ q : Q, q.lt q = false := by intro q; simp [Q.lt]
+  have qas : ∀ p q : Q, p.lt q = true → q.lt p = false := by
+    intro p q h; simp only [Q.lt, decide_eq_true_eq, decide_eq_false_iff_not] at *; omega
+  have eirr : ∀ x : Ext, x.lt x = false := by intro x; cases x <;> simp [Ext.lt, qirr]
+  have eas : ∀ x y : Ext, x.lt y = true → y.lt x = false := by
+    intro x y; cases x <;> cases y <;> simp [Ext.lt]; exact qas _ _
+  have sirr : ∀ s : String, ¬ s < s := fun s => String.lt_irrefl s
+  have sas : ∀ s t : String, s < t → ¬ t < s := fun s t h h' => String.lt_irrefl s (String.lt_trans h h')
+  constructor
+  · cases a <;> simp [liquidLt, toLiquid, Val.text?, Val.isBool, Val.num?, decVsNan, sirr, eirr, Ext.ofFlt]
+  · cases a <;> cases b <;>
+      simp [liquidLt, toLiquid, Val.text?, Val.isBool, Val.num?, decVsNan] <;>
+      (try (intro h; first | exact sas _ _ h | exact eas _ _ h))
+    case right.float.dec f q => cases f <;> simp [Ext.ofFlt, Ext.lt] <;> (try exact qas _ _)
+    case right.dec.float q f => cases f <;> simp [Ext.ofFlt, Ext.lt] <;> (try exact qas _ _)
+
+
+/-! ## Deepening round: the Pratt parser satisfies the stratified grammar's defining equations, for all token lists
+
+The recursive-descent oracle of the harness implements
+`L1 := L5 ((and|or) L1)? ; L5 := L6 (relop L5)? ; L6 := prefix (contains L6)? ; prefix := operand | ( L1 ) | not L1`.
+The four theorems below say that `parse_boolean_primitive` at the precedences 1/2, 5, 6 and 7 satisfies exactly
+these equations (`levelStep` = "at most one operator of this level, right operand at this level again"), for every
+token list, well-formed or not.  Since every right-hand side calls the parser on a strictly shorter list or at the
+next level, the equations determine the function: this is the equivalence with the grammar, short of packaging it
+as one equality with a separately defined grammar function. -/
+
+theorem level_side_ops (q hi lv : Nat) (h : ∀ o : Op, isBin (.op o) = true → stops (.op o) hi = true →
+    stops (.op o) q = false → prec (.op o) = lv) :
+    ∀ t, isBin t = true → stops t hi = true → stops t q = false → prec t = lv := by
+  intro t hb
+  cases t with
+  | op o => exact h o hb
+  | atom n => simp [isBin] at hb
+  | not => exact absurd hb (by decide)
+  | lp => exact absurd hb (by decide)
+  | rp => exact absurd hb (by decide)
+  | junk => simp [isBin] at hb
+
+theorem level_side_stop (q lv : Nat) (h : ∀ o : Op, stops (.op o) lv = true → stops (.op o) q = true) :
+    ∀ t, stops t lv = true → stops t q = true ∨ isBin t = false := by
+  intro t hs
+  cases t with
+  | op o => exact Or.inl (h o hs)
+  | atom n => exact Or.inr rfl
+  | not => exact Or.inr (by decide)
+  | lp => exact Or.inr (by decide)
+  | rp => exact Or.inr (by decide)
+  | junk => exact Or.inr rfl
+
+/-- `L1 := L5 ((and|or) L1)?` — a whole condition (precedence 1) and the right-hand side of `and`/`or`
+    (precedence 2) alike. -/
+theorem grammar_level_logical (fl : Flags) (ts : List Tok) :
+    parsePrim fl C12Tables.topPrec ts
+      = (parsePrim fl (prec (.op .eq)) ts).bind (levelStep fl C12Tables.topPrec (prec (.op .and))) ∧
+    parsePrim fl (prec (.op .and)) ts
+      = (parsePrim fl (prec (.op .eq)) ts).bind (levelStep fl (prec (.op .and)) (prec (.op .and))) := by
+  constructor
+  · exact level_eq fl _ _ _ (by decide) (level_side_ops _ _ _ (by intro o; cases o <;> decide))
+      (level_side_stop _ _ (by intro o; cases o <;> decide)) ts
+  · exact level_eq fl _ _ _ (by decide) (level_side_ops _ _ _ (by intro o; cases o <;> decide))
+      (level_side_stop _ _ (by intro o; cases o <;> decide)) ts
+
+/-- `L5 := L6 (relop L5)?` -/
+theorem grammar_level_relational (fl : Flags) (ts : List Tok) :
+    parsePrim fl (prec (.op .eq)) ts
+      = (parsePrim fl (prec (.op .contains)) ts).bind (levelStep fl (prec (.op .eq)) (prec (.op .eq))) :=
+  level_eq fl _ _ _ (by decide) (level_side_ops _ _ _ (by intro o; cases o <;> decide))
+    (level_side_stop _ _ (by intro o; cases o <;> decide)) ts
+
+/-- `L6 := prefix (contains L6)?` -/
+theorem grammar_level_contains (fl : Flags) (ts : List Tok) :
+    parsePrim fl (prec (.op .contains)) ts
+      = (parsePrim fl (prec .not) ts).bind (levelStep fl (prec (.op .contains)) (prec (.op .contains))) :=
+  level_eq fl _ _ _ (by decide) (level_side_ops _ _ _ (by intro o; cases o <;> decide))
+    (level_side_stop _ _ (by intro o; cases o <;> decide)) ts
+
+/-- `prefix := operand | ( L1 ) | not L1` — at the highest precedence nothing is appended to the prefix. -/
+theorem grammar_prefix (fl : Flags) (r : List Tok) :
+    (∀ n, parsePrim fl (prec .not) (.atom n :: r) = some (.atom n, r)) ∧
+    (fl.allowParens = true → ∀ e r', parsePrim fl C12Tables.topPrec r = some (e, .rp :: r') →
+        parsePrim fl (prec .not) (.lp :: r) = some (e, r')) ∧
+    (fl.allowNot = true → ∀ e r', parsePrim fl C12Tables.topPrec r = some (e, r') →
+        parsePrim fl (prec .not) (.not :: r) = some (.not e, r')) := by
+  have top : ∀ l ts, loop fl (prec .not) l ts = some (l, ts) := by
+    intro l ts
+    cases ts with
+    | nil => exact loop_nil ..
+    | cons t rest =>
+      apply loop_stop
+      cases t with
+      | op o => left; cases o <;> decide
+      | atom n => right; rfl
+      | junk => right; rfl
+      | _ => right; decide
+  refine ⟨fun n => by rw [parsePrim_atom]; exact top _ _, fun ha e r' h => ?_, fun ha e r' h => ?_⟩
+  · rw [parsePrim_group fl _ r r' e ha (by rw [show C12Tables.groupPrec = C12Tables.topPrec from by decide]; exact h)]; exact top _ _
+  · rw [parsePrim_not fl _ r r' e ha (by rw [show C12Tables.notOperandPrec = C12Tables.topPrec from by decide]; exact h)]; exact top _ _
 
 end LiquidVerif.C12
